@@ -28,7 +28,7 @@ def publish_raw_start(w, sm_arn, data, message_id=None, definition=None, executi
 
 
 def run_monitored(case, schedule=(), want=("lifecycle", "ack", "history", "surface"), seed=0, store="file", tick=1e-6,
-                  starts=None, n_engines=1, max_steps=4000, tz="UTC", split=False, orphan_retention_ms=3000, probe=None, logging=None, rerun_same_name=False, dup_replies=0, midrun_reads=0, past_expiry=0, rest="asyncio", include_data=True):
+                  starts=None, n_engines=1, max_steps=4000, tz="UTC", split=False, orphan_retention_ms=3000, probe=None, logging=None, rerun_same_name=False, dup_replies=0, midrun_reads=0, past_expiry=0, rest="asyncio", include_data=True, stragglers_past_expiry=False):
     """
     case: dict(definition, input, oracle, type).  starts: list of dict(mode="api"|"raw"|"raw-id", input=..., name=...).
     -> dict(fails={monitor: [(bucket, detail)]}, info={...}, world closed)
@@ -109,7 +109,23 @@ def run_monitored(case, schedule=(), want=("lifecycle", "ack", "history", "surfa
                 return False
             near = [t for t in b.live_timers() if not w_.is_heartbeat(t) and t.deadline - w_.clock.now <= 30]
             return not near
-        res = w.run(schedule, max_steps=max_steps, until=settled)
+        # (one STANDARD execution only: with several executions the messages waiting when the first one ends belong to the others, and an EXPRESS execution leaves no
+        #  record by which a message that arrives after its end could be recognised)
+        if past_expiry and stragglers_past_expiry and len(starts) == 1 and standard:
+            # stop at the first moment an execution has ended while messages of it are still waiting to be delivered (stragglers of a failed fan-out), let the expiry
+            # back stop pass with those still queued (a slow consumer), then deliver them: nothing may end the execution a second time or change its record
+            def ended_with_stragglers(w_):
+                if settled(w_):
+                    return True
+                arns = {((n.get("body") or {}).get("detail") or {}).get("executionArn") for n in w_.notifications}
+                return bool(w_.broker.deliverable()) and any(w_.terminal(a) is not None for a in arns if a)
+            res = w.run(schedule, max_steps=max_steps, until=ended_with_stragglers)
+            if res == "until" and not settled(w) and w.broker.deliverable():
+                out["info"]["stragglers_held_past_expiry"] = len(w.broker.deliverable())
+                w.advance_holding_deliveries(past_expiry + 130)
+            res = w.run([], max_steps=max_steps, until=settled)
+        else:
+            res = w.run(schedule, max_steps=max_steps, until=settled)
         if res == "until":
             res = "quiescent"
         if past_expiry and res == "quiescent":
